@@ -189,6 +189,23 @@ Definition tri_table_ok (S : Z) (bs : list tri_branch) (tn td : Z) (d : nat) : b
       | _, _ => false end
   | None => false end.
 
+(* all degrees 1..dmax at once: the exactness check is run once per group of degrees served by the same branch, at
+   the largest degree of the group (exactness to degree D implies exactness to every d <= D for the same table) *)
+Fixpoint select_index (bs : list tri_branch) (d : Z) : option nat :=
+  match bs with
+  | [] => None
+  | (c, _) :: r => if cond_holds c d then Some O else option_map S (select_index r d)
+  end.
+Definition same_index (bs : list tri_branch) (d D : nat) : bool :=
+  match select_index bs (Z.of_nat d), select_index bs (Z.of_nat D) with
+  | Some a, Some c => Nat.eqb a c
+  | _, _ => false end.
+Definition is_rep (bs : list tri_branch) (dmax d : nat) : bool := Nat.eqb d dmax || negb (same_index bs d (S d)).
+Definition tri_tables_ok (S : Z) (bs : list tri_branch) (tn td : Z) (dmax : nat) : bool :=
+  let reps := filter (is_rep bs dmax) (seq 1 dmax) in
+  forallb (tri_table_ok S bs tn td) reps
+  && forallb (fun d => existsb (fun D => Nat.leb d D && same_index bs d D) reps) (seq 1 dmax).
+
 (* ------------------------------------------------------------------ geometric kernels (Num-generic) *)
 Section Geo.
   Context {T : Type} {NT : Num T}.
